@@ -223,9 +223,12 @@ func r2sibReaction(f *r2sibFunc, body *ast.BlockStmt) string {
 			}
 		case *ast.CallExpr:
 			if fn := CalleeOf(f.info, x); fn != nil {
-				switch fn.Name() {
-				case "error", "newCompatibilityErr", "warn":
-					r = fn.Name()
+				ro := r2sibEngineOf(f.c).roles
+				switch {
+				case ro.diagPrim[fn] != "":
+					r = ro.diagPrim[fn]
+				case ro.errCtor[fn]:
+					r = "compatibility error"
 				}
 			}
 		}
@@ -265,6 +268,10 @@ func ruleTwoSided(c *Ctx) []Obligation {
 				for j := i + 1; j < len(incl); j++ {
 					a, b := incl[i], incl[j]
 					if a.loop == b.loop {
+						continue
+					}
+					// both halves of a set-equality test react to a missing element (diagnostic, error, return)
+					if a.reaction == "" || b.reaction == "" {
 						continue
 					}
 					// nested loops are not two halves
